@@ -150,7 +150,8 @@ func DecodeFrame(b []byte, k Kind, d Dialect) (Packet, error) {
 
 // DecodeFrameLenient is DecodeFrame as a tolerant receiver would apply it: octets whose value
 // the RFC prescribes for the sender but which carry no information (the alignment padding after
-// an SDES chunk's terminator, the always-zero media SSRC of REMB) are not inspected. What it rejects is a frame whose own counts and
+// an SDES chunk's terminator, octets after the last SDES chunk, the always-zero media SSRC of
+// REMB) are not inspected. What it rejects is a frame whose own counts and
 // lengths contradict each other or the frame's size.
 func DecodeFrameLenient(b []byte, k Kind, d Dialect) (Packet, error) {
 	return decodeFrame(b, k, d, true)
@@ -203,7 +204,7 @@ func decodeFrame(b []byte, k Kind, d Dialect, lenient bool) (Packet, error) {
 			}
 			v.Chunks = append(v.Chunks, c)
 		}
-		if r.err == nil && r.left() != 0 {
+		if r.err == nil && r.left() != 0 && !lenient {
 			r.err = bad("%d surplus octets after %d SDES chunks", r.left(), h.Count)
 		}
 		p.SDES = v
